@@ -231,10 +231,14 @@ class Peer(object):
                 for ln in lines[1:]:
                     k, _, v = ln.partition(b":")
                     req.headers.append((k.decode("latin-1"), v.decode("latin-1").strip()))
-                try:
-                    length = int(req.header("Content-Length", "0"))
-                except ValueError:
-                    length = 0
+                length = 0
+                for v in req.headers_named("Content-Length"):
+                    # the library's own header comes first; later duplicates are what a check wants to see, not trust
+                    try:
+                        length = int(v)
+                        break
+                    except ValueError:
+                        continue
                 while len(rest) < length:
                     data = conn.recv(65536)
                     if not data:
